@@ -7,6 +7,7 @@ package verifzrpc
 import (
 	"time"
 
+	"github.com/zeromicro/go-zero/zrpc"
 	"github.com/zeromicro/go-zero/zrpc/internal"
 	"github.com/zeromicro/go-zero/zrpc/internal/clientinterceptors"
 	"github.com/zeromicro/go-zero/zrpc/internal/serverinterceptors"
@@ -31,3 +32,24 @@ func ClientChain(clientTimeout time.Duration, timeoutOn bool) grpc.UnaryClientIn
 }
 
 func IdleConn() *grpc.ClientConn { return internal.VerifIdleConn() }
+
+// MethodTimeout is one entry of RpcServerConf.MethodTimeouts.
+type MethodTimeout struct {
+	FullMethod string
+	Timeout    time.Duration
+}
+
+// ServerChain: the unary server interceptor chain as zrpc.NewServer assembles it from an RpcServerConf
+// with the given server-wide timeout (ms, 0 = none) and per-method table; Trace and Prometheus on,
+// Recover as given, Stat / Breaker / shedder off (process-wide state on the real clock).
+func ServerChain(timeoutMs int64, recoverOn bool, methods []MethodTimeout) grpc.UnaryServerInterceptor {
+	var c zrpc.RpcServerConf
+	c.Timeout = timeoutMs
+	c.Middlewares.Trace = true
+	c.Middlewares.Prometheus = true
+	c.Middlewares.Recover = recoverOn
+	for _, m := range methods {
+		c.MethodTimeouts = append(c.MethodTimeouts, zrpc.MethodTimeoutConf{FullMethod: m.FullMethod, Timeout: m.Timeout})
+	}
+	return zrpc.VerifUnaryServerChain(c)
+}
